@@ -364,6 +364,10 @@ func objectDefineOwnProperty(obj *object, name string, descriptor property, thro
 		if !configurable {
 			return reject("property descriptor not configurable")
 		}
+		if !isDataDescriptor && descriptor.value == nil {
+			// Accessor => Data without a value: [[Value]] defaults to undefined (8.12.9 step 9.c)
+			descriptor.value = Value{}
+		}
 	case isDataDescriptor && descriptor.isDataDescriptor():
 		// DataDescriptor <=> DataDescriptor
 		if !configurable {
